@@ -494,6 +494,11 @@ def run_countfail(prog, ctx=None):
                     tgt = strip(n["e"], lvalue_to_rvalue=False)
                 elif n.get("k") == "bin" and n.get("op") == "+=":
                     tgt = strip(n["a"], lvalue_to_rvalue=False)
+                elif n.get("k") == "bin" and n.get("op") == "=":
+                    # the same raise written out: `count = pos + 1`
+                    r = strip(n["b"], all_casts=True)
+                    if r.get("k") == "bin" and r.get("op") == "+" and (cval(r["a"]) is not None or cval(r["b"]) is not None) and cval(r) is None:
+                        tgt = strip(n["a"], lvalue_to_rvalue=False)
                 if tgt is None:
                     continue
                 if tgt.get("k") == "mem" and tgt.get("f") in ("used", "_used", "count", "len"):
